@@ -49,6 +49,12 @@ def payload_classes_are_parser_private(prog: Program) -> List[str]:
     return bad
 
 
+def _new_class(cname: str) -> bool:
+    from .pathsim import _is_new_class
+
+    return _is_new_class(cname)
+
+
 def _is_new(key: str) -> bool:
     from .pathsim import is_new_helper
 
@@ -104,6 +110,12 @@ def rule_no_operand_mutation(ctx: Ctx, rule: str = "operand-mutation") -> None:
             elif is_private(fi.key) and fi.key not in actions:
                 # a private helper editing its own argument: judged where it is called
                 ctx.ok(rule, fi.key, "private helper edits its argument; judged at its call sites: " + norm(site.node)[:50], nontrivial=False)
+                continue
+            if fi.cls is not None and me is not None and fi.cls.name.startswith("_") and _new_class(fi.cls.name) and all(o[1] == me for o in porig) and not site.via:
+                # a method of a private class the reference tree does not have (an accumulator / builder extracted
+                # later) edits the object it is called on: judged where that object comes from - a caller that hands
+                # an operand to such a method is reported there
+                ctx.ok(rule, fi.key, "method of a private helper class edits its own object; judged at its call sites: " + norm(site.node)[:50], nontrivial=False)
                 continue
             if fi.name in ("__init__", "__post_init__") and all(o[1] == me for o in porig):
                 counts["ctor-self"] += 1
